@@ -57,6 +57,14 @@ def _impl(tier, seed, search):
         # --- constructors follow the documented orders ------------------------------------------
         L.close(f'rpy2r-order-{o}', b.rpy2r(a, order=o), fwd_rpy(a, o), 1e-12, 1.0, dict(angles=a, order=o))
         L.close('rpy2r-deg', b.rpy2r(np.degrees(a), order=o, unit='deg'), b.rpy2r(a, order=o), 1e-12, 1.0, dict(angles=a, order=o))
+        # Euler / roll-pitch-yaw / axis-angle of unit quaternions built from matrices whose rotation angle is 1e-13 .. 1e-10 from pi about a
+        # general axis (the quaternion's vector part must come out along the axis): the extraction rebuilds the rotation
+        if o == 'yxz':
+            dm_ = float(g.choice([-1, 1])) * 10.0 ** g.uniform(-13, -10); Eq_ = RZ(a[0]) @ RY(math.pi + dm_) @ RZ(a[2])
+            for nm_, f_ in (('UnitQuaternion.Eul(..pi+-d..).eul()', lambda: b.eul2r(UnitQuaternion.Eul([a[0], math.pi + dm_, a[2]]).eul())), ('UnitQuaternion(R).eul()', lambda: b.eul2r(UnitQuaternion(Eq_).eul())), ('UnitQuaternion(R).rpy()', lambda: b.rpy2r(UnitQuaternion(Eq_).rpy())),
+                            ('UnitQuaternion(R).R', lambda: UnitQuaternion(Eq_).R), ('UnitQuaternion(R).angvec()', lambda: b.angvec2r(*UnitQuaternion(Eq_).angvec()))):
+                ok, r_ = L.noraise(nm_, f_, dict(angles=[a[0], math.pi + dm_, a[2]]), nm_)
+                if ok: L.close(f'UQ(near half turn):{nm_}', r_, Eq_, TOL, 1.0, dict(angles=[a[0], math.pi + dm_, a[2]]), what=f'{nm_} does not rebuild a rotation whose angle is within 1e-10 of pi about a general axis', sig='UQ:near-half-turn')
         # axis-angle constructors of every class with an axis that is not of unit length: rotation by theta about the normalised axis
         if o == 'zyx':
             vax_ = inputs.unit_axis(g) * 10.0 ** g.uniform(-1, 1); tha_ = float(g.uniform(-3, 3)); wantav_ = inputs.rodrigues(vax_ / np.linalg.norm(vax_), tha_)
